@@ -109,6 +109,32 @@ pub fn run(tier: &str) -> i32 {
         }
         per.push(json!({"volume": name, "histories": a.len(), "A_vs_B_differences": ab, "A_vs_C_differences_ascii": ac_ascii, "A_vs_C_differences_nonascii_without_case_pair": ac_nocase, "A_vs_C_differences_with_non_ascii_case_pair(permitted)": ac_case, "panics": panics}));
     }
+    // foreign directory contents (the C17 families incl. unpaired surrogates): listing + lookups give the same
+    // per-case hash in all three builds
+    {
+        let rp = dir.join("c19-slots.img");
+        std::fs::write(&rp, crate::c17::root_image()).expect("write image");
+        let mut hashes = Vec::new();
+        for v in ["a", "b", "c"] {
+            match crate::c17::run_driver(v, &["c17", rp.to_str().unwrap(), "root", "quick"]) {
+                Ok(o) => hashes.push((v, o.hash, o.evals)),
+                Err(e) => {
+                    eprintln!("MACHINERY ERROR: {e}");
+                    return 2;
+                }
+            }
+        }
+        let _ = std::fs::remove_file(&rp);
+        histories += hashes[0].2;
+        for (v, h, _) in &hashes[1..] {
+            if *h != hashes[0].1 {
+                all.entry(format!("C19/crafted-directory-contents-differ/build-{v}"))
+                    .or_insert((format!("listing + lookup hash over the crafted slot contents: build a {} vs build {v} {h}", hashes[0].1), 0, "slots".into()))
+                    .1 += 1;
+            }
+        }
+        per.push(json!({"volume": "crafted slot contents (C17 families)", "cases_per_build": hashes[0].2, "hashes": hashes.iter().map(|(v, h, _)| format!("{v}:{h}")).collect::<Vec<_>>()}));
+    }
     for (sig, (msg, n, cfg)) in all {
         let mut v = violation("C19", &sig, &msg, &cfg);
         v.count = n;
